@@ -191,3 +191,66 @@ CHECKS["C17"] = {
     ],
     "fuzz": [{"name": "FuzzParse", "seconds": 120}],
 }
+
+CHECKS["C16"] = {
+    "pkg": "./c16/",
+    "level": "exploration",
+    "technique": ("property-based testing (rapid) of the production Parse entry points and batch iterators against a reference model + "
+                  "metamorphic relations (tag permutation, format, neighbours), batch histories over the sync.Pool, native fuzzing of the influx/flat parsers"),
+    "rule": ("TestIngestRoute: a case is a history of 1-4 requests (format, namespace, enriched tags, limits, 1-200 metrics) against one "
+             "database config (behind/ahead, intervals, 1-64 shards); non-trivial = >= 2 routed requests (pooled batch reused) and some "
+             "request hits >= 2 shards and >= 2 families and has >= 1 evicted row. TestFormatsAgree: non-trivial = metric accepted, >= 2 "
+             "tags, compared in >= 2 formats. distinct = hash of config + every metric (timestamps as offsets from the case's now)"),
+    "level_text": ("Generated-input exploration through the functions the HTTP handler and databaseChannel.Write call: every accepted row is "
+                   "compared field-by-field with an independent model (last-wins dedup, xxhash of sorted tags, sanitising, limits), the "
+                   "(shard,family,rows) triples are checked to be an exact partition with shard = jump hash < count and family containing the "
+                   "timestamp, dropped <=> outside the window, and the written bytes are re-read through StorageBatchRows."),
+    "level_note": ("Trusted: xxhash library, timeutil calculators (C13), Go http/protobuf/flatbuffers. Clock: one now per case, timestamps >= 10 min "
+                   "from the thresholds. GC is disabled inside a case and the batch pool emptied first, so pool reuse is deterministic. "
+                   "Out of scope by the statement: whether every well-formed influx line is accepted (a line without tags and >= 2 fields is refused by lindb; not generated)."),
+    "assumptions": ["request namespace non-empty and within limits, enriched tags non-empty/within limits/unique keys (the handler guarantees this)",
+                    "timestamps never 0 and >= 10 min away from the window thresholds", "one goroutine (no concurrent requests)",
+                    "flat rows < 10 KiB; -0.0 not generated (not representable on either wire)"],
+    "tests": [
+        {"name": "TestIngestRoute", "quick": 2000, "thorough": {"checks": 10000, "shards": 16}},
+        {"name": "TestFormatsAgree", "quick": 2000, "thorough": {"checks": 20000, "shards": 8}},
+        {"name": "TestRegression_StaleOutOfRangeFlag", "quick": {}, "thorough": {}},
+        {"name": "TestRegression_FlatRequestNamespaceIgnored", "quick": {}, "thorough": {}},
+        {"name": "TestRegression_ProtoDedupUnstableSort", "quick": {}, "thorough": {}},
+        {"name": "TestRegression_BuilderDedupUnstableSort", "quick": {}, "thorough": {}},
+        {"name": "TestRegression_ProtoCompoundNaNAccepted", "quick": {}, "thorough": {}},
+        {"name": "TestRegression_InfluxBareIntegerSuffixPanics", "quick": {}, "thorough": {}},
+        {"name": "FuzzInfluxParse", "quick": {}, "thorough": {}},
+        {"name": "FuzzFlatParse", "quick": {}, "thorough": {}},
+    ],
+    "fuzz": [{"name": "FuzzInfluxParse", "seconds": 120}, {"name": "FuzzFlatParse", "seconds": 120}],
+}
+
+CHECKS["C15"] = {
+    "pkg": "./c15/",
+    "level": "exploration",
+    "technique": "property-based testing (rapid) of kv/table builder+mmap reader, table.NewMergedIterator and kv family snapshots against a sorted-map / multiset model; native go fuzzing of the table reader (valid tables must round-trip; damaged files informational)",
+    "rule": ("rapid-generated key sets over uint32 (dense runs, strided, sparse, clustered chunks, +-2 around 65536*k, 0/MaxUint32, >4096-key bitmap containers, "
+             "long holed runs crossing chunk boundaries), values 0 B..1 MiB (thorough: some 4 MiB), written by Add / StreamWriter (shared or fresh, 0-3 split writes) / mixed, "
+             "with injected duplicate / last-1 / earlier / 0 / smaller keys; 30% of table cases resize one value so that the largest start offset is exactly "
+             "255/256/257/65535/65536/65537 (thorough also 2^24-1/2^24). TestTableRoundTrip non-trivial = key set spans >= 2 roaring containers or has a run container; "
+             "TestMergedIterator = >= 2 input tables sharing a key; TestStoreMultiFile = >= 2 files of the version sharing a key; "
+             "distinct = hash of the operation list (key, size, mode, bad flag, value head) [+ table count/order]. TestCorruptReaderInfo is informational (never non-trivial)."),
+    "level_text": ("Generated-input exploration: thousands of generated tables per run are written through the production builder (Add, StreamWriter, mixed) and read back through the "
+                   "production mmap reader (Get on every key, absent-key probes around every key and chunk boundary, full iteration, builder Count/MinKey/MaxKey/Size, StreamWriter Size/CRC32); "
+                   "1-8 real tables are merged and compared as a key-ordered multiset; 1-8 flushes into one kv family are read through Snapshot.Load, FindReaders+Get, per-file readers, "
+                   "FileMeta min/max and the compaction-input merged iterator, optionally after closing and reopening the store."),
+    "level_note": ("Trusted: tmpfs scratch files, the lindb/roaring fork only as a labelling aid (not as oracle). Corrupt or foreign table files are outside the property: the fuzz target and "
+                   "TestCorruptReaderInfo only record what the reader does with them. Files at level >= 1 are reached only through compaction (C03, C01)."),
+    "assumptions": ["keys are written in ascending order per file apart from the injected ones; Prepare/Write/Commit used in the documented order",
+                    "every flush carries at least one value byte (storeFlusher.Commit abandons a builder whose Size() is 0; no production flusher writes only empty values)",
+                    "total value bytes per table < 4 GiB (uint32 positions in the footer)",
+                    "no compaction during a case (CompactThreshold = 1<<20, no job scheduler started)"],
+    "tests": [
+        {"name": "TestTableRoundTrip", "quick": 3000, "thorough": {"checks": 3000, "shards": 8}},
+        {"name": "TestMergedIterator", "quick": 2000, "thorough": {"checks": 3000, "shards": 4}},
+        {"name": "TestStoreMultiFile", "quick": 1500, "thorough": {"checks": 2000, "shards": 4}},
+        {"name": "TestCorruptReaderInfo", "quick": 300, "thorough": {"checks": 3000, "shards": 1}},
+    ],
+    "fuzz": [{"name": "FuzzTableReader", "seconds": 120}],
+}
